@@ -92,6 +92,20 @@ pub fn drive(args: &HashMap<String, String>) {
         let expr = p.body.render();
         cs.push(Case { p, open, envs, defs, expr });
     }
+    // RestLadder / AssignLadder sessions (open: the program's parameters are the free variables)
+    for (p, envs) in crate::p_compile::rest_and_assign_ladders() {
+        let defs: Vec<String> = p.helpers.iter().map(|h| h.render()).collect();
+        cs.push(Case { expr: p.body.render(), defs, envs, open: true, p });
+    }
+    // UseLadder sessions: open (free variables P1 P2) and closed (P1 = 1, P2 = 700)
+    for (p, envs) in crate::p_compile::use_ladder(false) {
+        let defs: Vec<String> = p.helpers.iter().map(|h| h.render()).collect();
+        cs.push(Case { expr: p.body.render(), defs: defs.clone(), envs: envs.clone(), open: true, p: p.clone() });
+        let vals: HashMap<String, V> = [("P1".to_string(), V::int(1)), ("P2".to_string(), V::int(700))].into_iter().collect();
+        let body = subst(&p.body, &vals);
+        let pc = Program { args: Pat::Nil, helpers: p.helpers.clone(), body };
+        cs.push(Case { expr: pc.body.render(), defs, envs: vec![V::nil()], open: false, p: pc });
+    }
     let cfg = PoolCfg { batch: 1, timeout: Duration::from_secs(20), ..PoolCfg::default() };
     let rjobs: Vec<Value> = cs.iter().map(|c| json!({"op": "repl", "defs": c.defs, "expr": c.expr})).collect();
     let rres = run_jobs(rjobs, &cfg);
